@@ -6,7 +6,7 @@
     the registry, reshape to the written view order.  [query_spec] is a
     comprehension over the map identifier -> component vector ([abs w]). *)
 From Coq Require Import Permutation.
-From Brood Require Import Base World Spec Kinds Tables Sched Query Subset SubsetM IterM BaseFacts Inv StepInv Refine QueryFacts SubsetFacts IterFacts.
+From Brood Require Import Base World Spec Kinds Tables Sched Query Subset SubsetM IterM Facts Advance BaseFacts Inv StepInv Refine QueryFacts SubsetFacts IterFacts AdvanceFacts.
 
 (** For any views (any kinds, any order, with or without the identifier, empty),
     any filter and every reachable world — empty archetypes and zero-sized
@@ -132,3 +132,18 @@ Theorem C03_fold_must_start_with_the_current_archetype :
   let '(xs, it') := nexts nat 1 it0 in
   xs = [1] /\ fold_items nat false it' = [4] /\ fold_items nat true it' = [2; 3; 4].
 Proof. exact fold_skipping_current_loses. Qed.
+
+
+(** The column walk with the advance of the column pointer as the source performs it — one column consumed for
+    every component the archetype has, viewed or not, in each of the 20 (impl, function) sites of
+    registry/sealed/view.rs and par_view.rs, read off the source — is the walk all the theorems above are about;
+    without the advance the same column reaches two views. *)
+Theorem C03_walk_as_in_the_source : forall k bits cols vs, walk_src k bits cols vs = walk k bits cols vs.
+Proof. exact walk_src_is_walk. Qed.
+Check (C03_walk_as_in_the_source : forall k bits cols vs, walk_src k bits cols vs = walk k bits cols vs).
+Print Assumptions C03_walk_as_in_the_source.
+
+Theorem C03_walk_must_advance :
+  walk_adv false 0 [true; true] [11%N; 22%N] [VComp KOptMut 0; VComp KRef 1] = Some [(0, QOpt (Some 11%N)); (1, QVal 11%N)] /\
+  walk_adv true 0 [true; true] [11%N; 22%N] [VComp KOptMut 0; VComp KRef 1] = Some [(0, QOpt (Some 11%N)); (1, QVal 22%N)].
+Proof. exact walk_without_advance_aliases. Qed.
